@@ -1,4 +1,6 @@
 #!/bin/bash
+# C11: (1) free-running -race pass of the scenario bodies; (2) schedx exploration, which folds
+# in the result of (1).
 HERE="$(cd "$(dirname "$0")/../../.." && pwd)"
-. "$HERE/bin/env.sh"
+. "$HERE/bin/race-pass" aspen c11 120
 exec "$HERE/bin/schedx-run" aspen c11 "/repo/aspen /repo/x/go /repo/alamos/go /repo/freighter/go"
